@@ -201,7 +201,7 @@ def run(ctx):
     if stats["unreproduced"]:
         raise Infra("a directed schedule blocked once but not twice: %s" % stats["notes"])
     # ------------------------------------------------------------------ T: seeded concurrent workloads
-    n = 28 if quick else 400
+    n = 28 if quick else 300
     par = max(2, min(8, NCPU // 2))
     traces, tot = [], {}
     for binary, kind in ((b, "plain"), (br, "race")):
@@ -218,9 +218,12 @@ def run(ctx):
                 tot[k] = tot.get(k, 0) + v
     if not ctx.violations and (tot.get("rollback_requests", 0) == 0 or tot.get("cached_sections", 0) == 0):
         raise Infra("vacuous run: the workloads never reached the rollback path / the cached-verification path: %s" % tot)
-    tstates, rejected = 0, 0
-    for i in range(0, len(traces), 40):
-        batch = traces[i:i + 40]
+    tstates, rejected, tvalidated = 0, 0, 0
+    for i in range(0, len(traces), 20):      # <= 20 per call: one TLC re-run per rejected trace stays below the helper's limit
+        if rejected >= 8:                    # enough to classify a broken tree; the rest is not judged
+            break
+        batch = traces[i:i + 20]
+        tvalidated += len(batch)
         rej, st = ctx.validate_traces("chain/TraceNodeLocks", "cfg/TraceNodeLocks.cfg", [t for _, _, t in batch],
                                       reset=RESET, tag="trace", timeout=2400, heap="8g")
         tstates += st
@@ -273,7 +276,7 @@ def run(ctx):
     ctx.finish("model_checking", dict(
         states=sum(r.distinct for r in designs) + rdev.distinct + rrace.distinct + tstates,
         transitions=sum(r.generated for r in designs) + rdev.generated + rrace.generated,
-        traces_validated_against_impl=len(traces),
+        traces_validated_against_impl=tvalidated,
         samples=samples,
         design_instances=[dict(cfg=c, distinct=r.distinct, generated=r.generated, depth=r.depth, wall_s=round(r.wall, 1))
                           for c, r in zip(cfgs, designs)],
